@@ -39,4 +39,8 @@ CLAIMED = {
   technique="TLA+ definitions of the CRCs as polynomial division over bit sequences (Crc.tla); their laws (chunking, residue, table form = bit-serial form for all 65536 (seed,byte) pairs) checked by TLC; every recorded call of the real routines validated by TLC against the definitions",
   text="The definitions are first model-checked against their own laws over enumerated seeds and messages, then judge the implementation: (seed,byte) pairs of the three 8-bit routines, all messages up to length 3 over {00,01,80,FF} with every split point, random messages of every length 0..255 (quick: 0..70 and boundary lengths) at every alignment with a random split, in right-aligned exactly sized heap blocks under ASan.",
   note=NOTE),
+ "C18": dict(
+  technique="TLA+ definitions of hexascii / RFC 4648 base64 / fixed-width hex (Codec.tla) whose laws (round trip, lengths, alphabets, RFC test vectors) are checked by TLC over all strings up to length 2 and up to length 5 over critical bytes; recorded calls of every codec entry point validated by TLC against the definitions",
+  text="TLC first establishes on ~70k strings that the definitions are inverse pairs with the documented lengths and alphabets and reproduce the RFC 4648 section 10 vectors; then every C and C++ encoder form, the decoders on encoder output, and the 8/16/32/64-bit hex helpers are run on exhaustive short inputs, reduced-alphabet inputs and random strings (exact-size heap inputs, guarded outputs) and each call is judged against the definition.",
+  note=NOTE),
 }
